@@ -9,7 +9,7 @@ use crate::Ctx;
 use serde_json::json;
 
 pub fn bias() -> Bias {
-    Bias { sets: true, servers: true, regions: true, failing_ops: false, max_chans: 6, ops: 60 }
+    Bias { sets: true, servers: true, regions: true, failing_ops: false, failing_serialize: true, max_chans: 6, ops: 60 }
 }
 
 pub fn run(ctx: &Ctx) {
